@@ -92,7 +92,10 @@ def main():
     rows = []
     ok_all = True
     try:
+        only = os.environ.get("E1_SELFTEST_ONLY")
         for i, (name, mut, ob, cfg, expect, prefix) in enumerate(CATALOGUE):
+            if only and str(i) not in only.split(","):
+                continue
             root = os.path.join(tmp, f"mut{i}")
             os.makedirs(os.path.join(root, os.path.dirname(REL)))
             text = mut(orig)
